@@ -27,7 +27,7 @@ Require Import Verif.Model.Base Verif.Model.Attrs.
 (* false: the code as it is (nested slices are sorted in place);
    true: nested slices are copied before sorting (proposed_fix_C08.diff).
    Says which variant the correspondence check compares with the implementation. *)
-Definition fix_copy_nested : bool := false.
+Definition fix_copy_nested : bool := true.
 
 (* the backing array after SortStableFunc + dedupeSlice: the de-duplicated
    prefix (last of equal keys kept) followed by the STALE tail of the sorted
